@@ -495,6 +495,16 @@ def conversion_cases(build):
                     cases.append((f'{f}.push:{hx} {f}.into_bigint', hx, f'{F}::into_bigint({v})')); cases.append((f'{f}.push:{hx} {f}.ser', hx, f'{F}::serialize_compressed({v})'))
                     cases.append((f'{f}.push:{hx} {f}.into_biguint', le(v, (max(v.bit_length(), 1) + 7) // 8) if v else '00', f'{F} -> BigUint')); cases.append((f'{f}.from_biguint:{hx}', f'{f}:{hx}', f'BigUint -> {F}'))
                     cases.append((f'{f}.from_str:{v}', 'ok ' + hx, f'{F}::from_str')); cases.append((f'{f}.push:{hx} {f}.display', str(v) if v else '', f'{F} Display'))
+        if build == 'ark':
+            # decimal strings with structure a digit loop can get wrong: every length up to beyond the modulus, runs of trailing / inner /
+            # leading zeros (chunked accumulation), values at and beyond the modulus (reduced, not rejected), non-digits
+            strs = ['1' + '0' * k for k in range(0, 2 * len(str(p_)), 1)] + ['3' + '0' * k + '7' for k in range(0, 80, 3)] + ['9' * k for k in range(1, 100, 7)]
+            strs += ['0' * k + '12' for k in (1, 15, 16, 17, 31, 32, 33, 64)] + ['12345678901234567890' * k + '0' * j for k in (1, 2, 3) for j in (0, 4, 8, 12, 13, 16, 19, 20)]
+            strs += [str(p_), str(p_ + 1), str(2 * p_ + 5), str(p_ - 1) + '0', '', '0', '00', '7']
+            for st_ in strs:
+                cases.append((f'{f}.from_str:{st_}', 'ok ' + le(int(st_ or '0') % p_, nb), f'{F}::from_str on the {len(st_)}-digit string {st_[:24]}{"..." if len(st_) > 24 else ""}'))
+            for st_ in ('12a', '-1', '+1', '1_000', '0x10', '1.0', '١'):
+                cases.append((f'{f}.from_str:{st_}', 'err', f'{F}::from_str rejects {st_!r}'))
         cs = [(0, 1), (1, 0), (5, 5), (p_ - 1, 1), (2 ** 64, 2 ** 64 - 1), (2 ** 128, 2 ** 64), (3 << 200, 4 << 192)]
         for a, b in cs:
             cases.append((f'{f}.push:{le(a, nb)} {f}.push:{le(b, nb)} {f}.cmp', 'Less' if a < b else ('Equal' if a == b else 'Greater'), f'{F}: cmp({a}, {b})'))
@@ -678,6 +688,9 @@ def reproduce(prop, obs):
                     cases = extra_c + [c for c in cases if c not in extra_c]
                 if any((o.model or {}).get('kind') in ('funnel', 'funnel-panic') for o in os_):
                     fc = funnel_cases(build); cases = fc + [c for c in cases if c not in fc]
+                if any((o.model or {}).get('kind') == 'min_select' for o in os_):
+                    # the constant-time ladder is the public route through Element::conditional_select (minimal build)
+                    sc = [c for c in smul_cases('min') if 'ladder_ct' in c[0]]; cases = sc + [c for c in cases if c not in sc]
                 for profile in ('dev', 'release') if common.tier() == 'thorough' else ('dev',):
                     hit = run_cases(build, cases, profile)
                     if hit: break
